@@ -36,9 +36,9 @@ theorem gs_setIdx {d : List Nat} {p v : Nat} (h : p < d.length) : setIdx d p v =
 theorem gs_idx {l : List Nat} {i : Nat} (h : i < l.length) : idx l i = .ok (l.getD i 0) := by
   simp [idx, List.getD_eq_getElem?_getD, List.getElem?_eq_getElem h]
 theorem gs_getD_set_eq {d : List Nat} {p v : Nat} (h : p < d.length) : (d.set p v).getD p 0 = v := by
-  simp [List.getD_eq_getElem?_getD, List.getElem?_set, h]
+  simp [List.getD_eq_getElem?_getD, h]
 theorem gs_getD_set_ne {d : List Nat} {p q v : Nat} (h : p ≠ q) : (d.set p v).getD q 0 = d.getD q 0 := by
-  simp [List.getD_eq_getElem?_getD, List.getElem?_set, h]
+  simp [List.getD_eq_getElem?_getD, h]
 
 /-! ### coefficient-major samplers (`ternary`, `centered_binomial`): one draw per coefficient, written to every component -/
 
@@ -258,7 +258,7 @@ def gs_cbdTail (v3 : List Nat) : R Int := do
 
 theorem gs_closure_tail {σ : Type} (G : RngOps σ) (g : σ) :
     centered_binomial_closure1 G g = (do let (g, x) ← G.fill_bytes g [0, 0, 0, 0, 0, 0]; let v ← gs_cbdTail x; pure (g, v)) := by
-  simp only [centered_binomial_closure1, gs_cbdTail, bind_assoc, pure_bind]
+  simp only [centered_binomial_closure1, gs_cbdTail, bind_assoc]
 
 theorem gs_cbdTail_eq (b0 b1 b2 b3 b4 b5 : Nat) (h0 : b0 < 256) (h1 : b1 < 256) (h2 : b2 < 256) (h3 : b3 < 256) (h4 : b4 < 256) (h5 : b5 < 256) :
     gs_cbdTail [b0, b1, b2, b3, b4, b5] = .ok (cbdValue [b0, b1, b2, b3, b4, b5]) := by
@@ -290,7 +290,7 @@ theorem gs_cbdTail_eq (b0 b1 b2 b3 b4 b5 : Nat) (h0 : b0 < 256) (h1 : b1 < 256) 
   have c5 : ckI32 ((x0 : Int) + x1 + x2 - x3 - x4 - x5) = .ok ((x0 : Int) + x1 + x2 - x3 - x4 - x5) := gs_ckI32 (by omega) (by omega)
   simp only [Int.ofNat_eq_coe] at e0 e1 e2 e3 e4 e5
   simp only [gs_cbdTail, gs_ok_bind, gs_idx6_0, gs_idx6_1, gs_idx6_2, gs_idx6_3, gs_idx6_4, gs_idx6_5, gs_set6_2, gs_set6_5,
-    e0, e1, e2, e3, e4, e5, c1, c2, c3, c4, c5, pure, Except.pure]
+    e0, e1, e2, e3, e4, e5, c1, c2, c3, c4, c5]
 
 /-- the `cbd` closure run on the generated `BlakeRNG` = the model's `cbdDraw`: 6 bytes from the GENERATED `fill_bytes`, the two masks, the
     six GENERATED `hamming_weight`s, five checked `i32` additions / subtractions (none traps: every weight is at most 8) -/
@@ -328,7 +328,7 @@ theorem gs_cb_loop2 {σ : Type} (G : RngOps σ) (qs : List Nat) (n i : Nat) (v :
   intro c
   induction c with
   | zero => intro j d; rfl
-  | succ c ih => intro j d; simp only [centered_binomial_loop2, gs_refCol, gs_encCB, bind_assoc, pure_bind, ih]
+  | succ c ih => intro j d; simp only [centered_binomial_loop2, gs_refCol, gs_encCB, bind_assoc, ih]
 
 theorem gs_cb_loop1 {σ : Type} (G : RngOps σ) (qs : List Nat) (n : Nat) :
     ∀ (c i : Nat) (g : σ) (d : List Nat), centered_binomial_loop1 G qs n qs.length c i g d =
